@@ -23,7 +23,7 @@ META = {
     'functions': ['rockit/ocp.py:save/load/_untranscribe', 'rockit/casadi_helpers.py:rockit_pickle_context/rockit_unpickle_context/HashList/HashDict/HashOrderedDict (__getstate__/__setstate__)',
                   'rockit/stage.py:__deepcopy__ and all declared containers'],
     'bounds': 'features: parameters of all kinds, variables of all kinds, scaling, free/parametric horizon, DAE, offsets, integrals, guesses; MS/SS/DC; N<=3, M<=2',
-    'outside': 'multi-stage OCPs are exercised in C12; callbacks; external methods; SplineMethod',
+    'outside': 'multi-stage OCPs beyond two stages (their composition is C12); callbacks; external methods; SplineMethod',
     'assumptions': ['variables of original and loaded transcriptions correspond by creation order', 'reals for floats'],
 }
 
@@ -73,6 +73,11 @@ def instances(tier, seed):
         s.cons = list(s.cons) + [Con('<=', X(1) * Pg('b2'), 12)]
         s.note = 'values set after transcription'
         add(spec=fam.with_horizon(s, H[mi]), cfg=Cfg(method, N=2, M=[1, 2][mi % 2], intg=intg or 'rk', grid=grids[mi], degree=2, scheme='radau'), when='value-after')
+    # multi-stage OCPs (two directly declared stages, or a template used twice): saved before / after a transcription / after the master's
+    # method object was replaced
+    for when in ('before', 'after', 'edited-method'):
+        for clones in (False, True):
+            add(kind='multistage', when=when, clones=clones)
     # seeded random problems (model, constraints, objective, guesses): the relational comparison needs no reference semantics
     from .. import randspec
     rr = random.Random(seed * 7919 + 1818)
@@ -120,7 +125,79 @@ def rebuilt(ocp2, b, spec, cfg):
     return b2
 
 
+def run_multistage(item):
+    from . import c12
+    from rockit import DirectMethod
+    when, clones = item['when'], item['clones']
+    hz = [(('num', Fr(0)), ('num', Fr(1))), (('num', Fr(1)), ('free', Fr(2)))]
+    cfgs = [Cfg('MS', N=2, M=1, intg='rk', grid=fam.G_UNI), Cfg('DC', N=2, M=1, degree=2, scheme='radau', grid=fam.G_UNI)]
+    if clones:
+        stages = [dict(spec=c12.stage_model(0), cfg=cfgs[0], t0=hz[i][0], T=hz[i][1], clone_of='tpl', pvals={'a': Fr(5 + 2 * i, 4)}) for i in range(2)]
+    else:
+        stages = [dict(spec=c12.stage_model(i), cfg=cfgs[i], t0=hz[i][0], T=hz[i][1], clone_of=None) for i in range(2)]
+    desc = dict(stages=stages, coupling=[('cont', 0, 1), ('wge', 1)], parent=[('w2',), ('par',)])
+    extra = lambda b: [b.ocp.value(b.w), b.ocp.value(b.w2), b.ocp.value(b.pa), b.ocp.value(b.pb)]
+    tag = 'multistage|%s|save-%s' % ('clones' if clones else 'direct', when)
+    viol = []
+    with quiet():
+        m = c12.build(desc)
+        m.ocp.solver('ipopt', {'ipopt.max_iter': 7})
+        if when in ('after', 'edited-method'):
+            m.ocp._transcribed
+        if when == 'edited-method':
+            m.ocp.method(DirectMethod())
+            m.ocp.solver('ipopt', {'ipopt.max_iter': 7})
+    fd, path = tempfile.mkstemp(suffix='.rockit', prefix='rvc18_')
+    os.close(fd)
+    try:
+        try:
+            with quiet():
+                m.ocp.save(path)
+                ocp2 = Ocp.load(path)
+        except Exception as e:
+            return {'status': 'violation', 'stats': {}, 'obligations': 1, 'discharged': 0, 'shape': tag,
+                    'violations': [{'property': PROP, 'key': 'save-raises|%s' % tag, 'label': 'save/load', 'cfg': 'MS+DC', 'spec': 'two stages',
+                                    'detail': 'ocp.save/Ocp.load of a multi-stage OCP raised (%s): %s' % (when, str(e).strip().splitlines()[-1][:200])}]}
+    finally:
+        if os.path.exists(path):
+            os.remove(path)
+    O = Inst(None, None, seed=item.get('seed', 0), built=m, solver=False, extra_outputs=extra)
+    ch = Checker(O)
+    try:
+        with quiet():
+            m2 = Built()
+            m2.ocp = m2.stage = ocp2
+            v2, p2 = list(ocp2.variables['']), list(ocp2.parameters[''])
+            m2.w, m2.w2, m2.pa, m2.pb = v2[0], v2[1], p2[0], p2[1]
+            m2.stage_builts = []
+            for bs, st2 in zip(m.stage_builts, list(ocp2._stages)):
+                b2 = rebuilt(st2, bs, bs.spec, bs.cfg)
+                b2.ocp, b2.stage = ocp2, st2
+                m2.stage_builts.append(b2)
+        L = Inst(None, None, seed=item.get('seed', 0), built=m2, solver=False, like=O, bind=bind_positional(), extra_outputs=extra)
+    except Exception as e:
+        viol.append({'property': PROP, 'key': 'loaded-not-transcribable|%s' % tag, 'label': 'load', 'cfg': 'MS+DC', 'spec': 'two stages', 'detail': 'transcribing the loaded multi-stage OCP raised: %s' % str(e)[:300]})
+        L = None
+    npairs = 0
+    if L is not None:
+        diffs, npairs = compare_nlps(ch, O, L, 'original', 'loaded')
+        for key, label, detail in diffs:
+            viol.append({'property': PROP, 'key': '%s|%s' % (key, tag), 'label': label, 'detail': detail, 'cfg': 'MS+DC', 'spec': 'two stages'})
+        xa, xb = list(O.nlp.x0()), list(L.nlp.x0())
+        if len(xa) != len(xb) or not all(close(float(a), float(c)) for a, c in zip(xa, xb)):
+            viol.append({'property': PROP, 'key': 'x0-differs|%s' % tag, 'label': 'x0', 'detail': 'starting point differs after load', 'cfg': 'MS+DC', 'spec': 'two stages'})
+        pa, pb = list(O.nlp.pval()), list(L.nlp.pval())
+        if len(pa) != len(pb) or not all(close(float(a), float(c)) for a, c in zip(pa, pb)):
+            viol.append({'property': PROP, 'key': 'p-differs|%s' % tag, 'label': 'p', 'detail': 'parameter values differ after load: %s vs %s' % (pa, pb), 'cfg': 'MS+DC', 'spec': 'two stages'})
+    r = result(O, ch, {'violations': viol, 'twins_ok': 0, 'twins_bad': 0, 'shape': tag, 'sample': {'kind': 'multistage', 'save': when, 'clones': clones, 'rows': O.nlp.ng, 'pairs': npairs}})
+    if viol:
+        r['status'] = 'violation'
+    return r
+
+
 def run(item):
+    if item.get('kind') == 'multistage':
+        return run_multistage(item)
     spec, cfg, when = item['spec'], item['cfg'], item['when']
     viol = []
     with quiet():
